@@ -89,6 +89,12 @@ def _add_job(job):
                 moved = None
         except Exception:
             moved = None
+    if o[1] % 2 == 0:
+        # applications hang things of their own on address objects (a label, a room): still the same address
+        try:
+            obj.label = "kitchen"
+        except Exception:
+            pass
     cells = []
     rb = 1
     for k, lo in enumerate(LOWS[lname][1]):
